@@ -136,11 +136,18 @@ def run(tier, seed, replay):
         return rep.finish()
     nscen = 8 if tier == "quick" else 60
     # payload plan: every 1-byte string on every channel (exhaustive), structure-aware + random beyond
-    payloads = [(ch, [b]) for ch in range(4) for b in range(256)] + [(ch, []) for ch in range(4)]
+    payloads = [(ch, [b]) for ch in range(5) for b in range(256)] + [(ch, []) for ch in range(5)]
     if tier == "thorough":
         payloads += [(ch, [a, b]) for ch in (0, 3) for a in range(256) for b in range(0, 256, 5)]
     n_struct = 1500 if tier == "quick" else 20000
-    payloads += [(rng.choice([0, 1, 2, 3, 3]), interesting_bytes(rng)) for _ in range(n_struct)]
+    payloads += [(rng.choice([0, 1, 2, 3, 3, 4]), interesting_bytes(rng)) for _ in range(n_struct)]
+    # sequence-shaped payloads: a claimed length (small .. 2^64-1) followed by few or no elements
+    for _ in range(n_struct // 5):
+        n = rng.choice([0, 1, 2, 5, 0x7f, 0x80, 0x3fff, 0x4000, 2**20, 2**28 - 1, 2**31 - 1, 2**32, 2**63, 2**64 - 1])
+        body = varint(n)
+        for _ in range(min(n, rng.randrange(0, 6))):
+            body += varint(rng.choice([0, 1, 300, 2**32, 2**64 - 1]))
+        payloads.append((4, body + rng.choice([[], [0xff], [0x00]])))
     for l in read_corpus("C06"):
         ch, h = l.split()
         payloads.insert(0, (int(ch), unhex_list(h)))
@@ -174,9 +181,9 @@ def run(tier, seed, replay):
 
     def logical_channel(i, ch):
         """0 ack, 1 CE0, 2 CEM, 3 CT, -1 protocol hash"""
-        if not proto_at.get(i):
-            return ch
-        return 0 if ch == 0 else (-1 if ch == 1 else ch - 1)
+        if proto_at.get(i):
+            ch = 0 if ch == 0 else (-1 if ch == 1 else ch - 1)
+        return -2 if ch == 4 else ch          # 4: the event with a sequence payload (no byte-level Coq model: watched for panics and allocations only)
     dec_lines = []
     for i, f in inj:
         ch = logical_channel(i, int(f[2]))
@@ -218,6 +225,9 @@ def run(tier, seed, replay):
                     continue
                 if ch == -1:
                     kinds["hash"] = kinds.get("hash", 0) + 1
+                    continue
+                if ch == -2:
+                    kinds["vec"] = kinds.get("vec", 0) + 1
                     continue
                 if v.startswith("PANIC"):
                     oracle_fail.append(dict(problem=dict(step_index=i, step=l, why="the byte-level model says this message panics the decoder"), script=[]))
@@ -279,7 +289,7 @@ def run(tier, seed, replay):
     rep.cov["samples"] = [dict(step=all_lines[i], verdict=v) for (i, f), v in list(zip(inj, verdicts))[:5]]
     rep.cov["exhaustive_1_byte_all_channels"] = True
     rep.assumptions = ["user payload types are decoded by serde/postcard (abstract payload codec in the theorems: total and round-tripping); process aborts by the allocator would show up as a missing observation",
-                       "largest single allocation request during a server frame must stay below 2 MiB (serde's own cautious cap is 1 MiB)",
+                       "largest single allocation request during a server frame must stay below 256 KiB (the frames of the scenarios never allocate more than a few KiB at once; serde's own cautious cap for an unbounded length claim would be 1 MiB)",
                        "acknowledgement indices sent by the attacker may acknowledge its own in-flight messages; effects on the attacker's own replication are excluded from the comparison"]
     rep.cov["disagreements_checked"] = len(diverged)
     if oracle_fail:
